@@ -18,7 +18,8 @@ from . import onestep
 from .onestep import target_class, op_line, check_outcome, check_post_state
 from . import c06
 
-HOSTILE = ['../outside', '/../outside', 'a/../../outside', '../../..', '/outside', './../outside', '..', 'x/../..']
+HOSTILE = ['../outside', '/../outside', 'a/../../outside', '../../..', '/outside', './../outside', '..', 'x/../..',
+           '//outside', '///outside', '/./outside', '//../outside', 'a//../../outside']
 
 
 def run_kernel_case(prog, params):
@@ -97,7 +98,8 @@ def run_confine_case(prog, params):
                 sr.syms['o1'] = sym_content(ex, 1, 'o1')
                 sr.do('join uOut U %s' % hx(b'outside'))
                 sr.do('write uOut $o1')
-                outside = [('uOut', sr.syms['o1'])]
+                # with P = the underlying root nothing is outside P: /outside is then an ordinary entry of the altroot view
+                outside = [('uOut', sr.syms['o1'])] if comps else []
                 if len(comps) >= 1:
                     sr.do('join uA U %s' % hx(comps[0].encode()))
                     if not missing or len(comps) > 1:
